@@ -403,12 +403,18 @@ def _check_used_fill(ck: Checker, gc: Func, g, us: str) -> None:
 
 
 def _check_count(ck: Checker, gc: Func, g, destr) -> None:
+    """The number gc returns is the total length of the lists it hands to removal, whatever `dry` says.
+
+    precision     every contribution to the returned counter is `len(L)` of a list handed to removal (or 0)
+    completeness  from where a removal list is known (function entry / its loop head) no path reaches the exit (the next
+                  iteration) without len(L) having been computed *and then* added - except across "L is empty"
+    overwrite     a plain assignment to the counter never follows another contribution
+    Return idioms: a counter variable; `len(A) + len(B)`; `sum(len(x) for x in COLL)` with every removal inside
+    `for x in COLL`."""
+    from ..an import reaches, reaching_defs as _rd
+
     rets = [x for x in walk_own(gc.node) if isinstance(x, ast.Return) and x.value is not None]
-    names = {x.value.id for x in rets if isinstance(x.value, ast.Name)}
-    if len(names) != 1 or len(rets) != len([r for r in rets if isinstance(r.value, ast.Name)]):
-        ck.fail("C06.count", gc, rets[0] if rets else gc.node, "gc does not return a single accumulated counter")
-        return
-    cnt = names.pop()
+    appended = {norm(x.func.value) for x in walk_own(gc.node) if isinstance(x, ast.Call) and is_method_call(x, "append", "extend")}
 
     def lists_of(nd, name: str):
         """the list(s) a name stands for: a loop variable over a literal tuple of lists stands for each of them"""
@@ -418,46 +424,156 @@ def _check_count(ck: Checker, gc: Func, g, destr) -> None:
                 return {e_.id for e_ in h_.ast.iter.elts}
         return {name}
 
-    augs = [nd for nd in g.nodes.values() if nd.kind == "stmt" and isinstance(nd.ast, ast.AugAssign) and isinstance(nd.ast.target, ast.Name) and nd.ast.target.id == cnt]
-    if not augs:
+    # removal sites of whole lists: (node, name of the removed list as written there)
+    rm_sites = []
+    for nd, c, _k in destr:
+        if c.args and isinstance(c.args[0], ast.Name):
+            nm = c.args[0].id
+            co = _coll_of(g, nd, nm)
+            co_lists = co is not None and any(isinstance(getattr(d, "value", None), (ast.Tuple, ast.List, ast.ListComp, ast.GeneratorExp)) and {x.id for x in walk_expr(d.value) if isinstance(x, ast.Name)} & appended for d in scope_of(gc).get(co))
+            if lists_of(nd, nm) & appended or co_lists:
+                rm_sites.append((nd, nm))
+
+    # ---- idiom S: return sum(len(x) for x in COLL), removals inside `for x in COLL`
+    def _sum_coll(e):
+        if isinstance(e, ast.Call) and call_name(e) == "sum" and len(e.args) == 1 and isinstance(e.args[0], (ast.GeneratorExp, ast.ListComp)) and len(e.args[0].generators) == 1:
+            ge = e.args[0].generators[0]
+            if isinstance(ge.target, ast.Name) and norm(e.args[0].elt) == f"len({ge.target.id})" and isinstance(ge.iter, ast.Name) and all(norm(i_) == ge.target.id for i_ in ge.ifs):
+                return ge.iter.id
+        if isinstance(e, ast.Call) and call_name(e) == "sum" and len(e.args) == 1 and isinstance(e.args[0], ast.Call) and call_name(e.args[0]) == "map" and len(e.args[0].args) == 2 and norm(e.args[0].args[0]) == "len" and isinstance(e.args[0].args[1], ast.Name):
+            return e.args[0].args[1].id
+        return None
+
+    names = {x.value.id for x in rets if isinstance(x.value, ast.Name)}
+    sum_expr = None
+    if len(rets) == 1 and not names:
+        sum_expr = rets[0].value
+    elif len(rets) == 1 and len(names) == 1:
+        ds_ = [d for d in scope_of(gc).get(next(iter(names)))]
+        if len(ds_) == 1 and ds_[0].kind == "assign" and _sum_coll(ds_[0].value) is not None:
+            sum_expr = ds_[0].value
+    if sum_expr is not None:
+        coll = _sum_coll(sum_expr)
+        if coll is not None:
+            one_def = len([d for d in scope_of(gc).get(coll)]) == 1 and coll not in appended
+            oks = bool(rm_sites) and one_def and all(_coll_of(g, nd, nm) == coll for nd, nm in rm_sites)
+            # the collection holds every list that received paths (an empty one adds nothing)
+            holds = set()
+            for d in scope_of(gc).get(coll):
+                v = getattr(d, "value", None)
+                if isinstance(v, (ast.ListComp, ast.GeneratorExp)) and len(v.generators) == 1 and isinstance(v.generators[0].iter, (ast.Tuple, ast.List)) and isinstance(v.elt, ast.Name) and norm(v.elt) == norm(v.generators[0].target) and all(norm(i_) == norm(v.elt) for i_ in v.generators[0].ifs):
+                    holds = {norm(e_) for e_ in v.generators[0].iter.elts}
+                elif isinstance(v, (ast.Tuple, ast.List)):
+                    holds = {norm(e_) for e_ in v.elts}
+            ck.require(oks and holds == {a_ for a_ in appended if a_ != coll}, "C06.count", gc, rets[0],
+                       "the count is the summed length of the very collection of lists that is iterated for removal",
+                       f"`{norm(sum_expr)}` is not the summed length of exactly the lists handed to removal (collection `{coll}` holds {sorted(holds)}, lists filled: {sorted(appended)})")
+            return
+    if len(names) != 1 or len(rets) != len([r for r in rets if isinstance(r.value, ast.Name)]):
+        ck.fail("C06.count", gc, rets[0] if rets else gc.node, "gc does not return a single accumulated counter")
+        return
+    cnt = names.pop()
+
+    def _is_cnt(t):
+        return isinstance(t, ast.Name) and t.id == cnt
+
+    augs = [nd for nd in g.nodes.values() if nd.kind == "stmt" and isinstance(nd.ast, ast.AugAssign) and _is_cnt(nd.ast.target)]
+    asgs = [nd for nd in g.nodes.values() if nd.kind == "stmt" and isinstance(nd.ast, ast.Assign) and len(nd.ast.targets) == 1 and _is_cnt(nd.ast.targets[0])]
+    if not augs and len(asgs) == 1 and isinstance(asgs[0].ast.value, ast.BinOp):
         # alternative idiom: cnt = len(A) + len(B) over exactly the removal lists
         removed_all = set()
-        appended = {norm(x.func.value) for x in walk_own(gc.node) if isinstance(x, ast.Call) and is_method_call(x, "append", "extend")}
         for _nd, c, _k in destr:
             if c.args:
                 removed_all |= {l_ for l_ in lists_of(_nd, norm(c.args[0])) if l_ in appended}
-        for d in scope_of(gc).get(cnt):
-            if d.kind == "assign":
-                lens = {norm(x.args[0]) for x in walk_expr(d.value) if isinstance(x, ast.Call) and call_name(x) == "len" and x.args}
-                if lens and lens == removed_all:
-                    ck.ok("C06.count", gc, d.node, "count is the sum of len() over exactly the lists handed to removal")
-                    return
+        lens = {norm(x.args[0]) for x in walk_expr(asgs[0].ast.value) if isinstance(x, ast.Call) and call_name(x) == "len" and x.args}
+        if lens and lens == removed_all:
+            ck.ok("C06.count", gc, asgs[0], "count is the sum of len() over exactly the lists handed to removal")
+        else:
+            ck.fail("C06.count", gc, gc.node, f"cannot establish that `{cnt}` counts exactly the lists handed to removal")
+        return
+    if not augs and not asgs:
         ck.fail("C06.count", gc, gc.node, f"cannot establish that `{cnt}` counts exactly the lists handed to removal")
         return
-    for a in augs:
-        v = a.ast.value
-        if isinstance(v, ast.Name):
-            # `n = len(paths) | 0 when paths is empty; count += n` (a counting helper inlined): every value the
-            # temporary can hold is len() of the list, or the literal 0 across "the list is empty"
-            from ..an import value_alts as _va
 
-            alts_ = [x for x in _va(g, a, v, depth=3) if not isinstance(x, ast.Name)]
-            lens_ = [x for x in alts_ if isinstance(x, ast.Call) and call_name(x) == "len" and x.args]
-            zeros_ = [x for x in alts_ if isinstance(x, ast.Constant) and x.value == 0]
-            if lens_ and len({norm(x) for x in lens_}) == 1 and len(lens_) + len(zeros_) == len(alts_):
-                lname_ = norm(lens_[0].args[0])
-                zero_ok = True
-                for zd in [nd for nd in g.nodes.values() if nd.kind == "stmt" and isinstance(nd.ast, ast.Assign) and isinstance(nd.ast.value, ast.Constant) and nd.ast.value.value == 0 and a.loops and nd.loops[: len(a.loops)] == a.loops and nd.id != a.id and any(isinstance(t_, ast.Name) and t_.id == v.id for t_ in nd.ast.targets)]:
-                    w_ = cut(g, [zd.id], lambda t, lab: t.kind == "test" and ((norm(t.ast) == lname_ and lab == "F") or (norm(t.ast) == f"not {lname_}" and lab == "T")), start=a.loops[-1])
-                    zero_ok = zero_ok and w_ is None
-                if zero_ok:
-                    v = lens_[0]
-        okv = isinstance(a.ast.op, ast.Add) and isinstance(v, ast.Call) and call_name(v) == "len" and v.args
-        lst = norm(v.args[0]) if okv else None
-        removed = {norm(c.args[0]) for nd, c, _k in destr if c.args and a.loops and nd.loops[: len(a.loops)] == a.loops}
-        ck.require(bool(okv and lst in removed), "C06.count", gc, a,
-                   f"counter grows by len({lst}) of the very list handed to removal",
-                   f"counter update `{a.text()}` is not len() of the list that is removed ({', '.join(sorted(removed)) or 'none'})")
+    def leaves(nd, e, depth=4):
+        """[(defining node, non-name value)] for everything `e` can stand for at nd"""
+        if not isinstance(e, ast.Name) or depth == 0:
+            return [(nd, e)]
+        out = []
+        for d in _rd(g, nd.id, e.id):
+            a = d.ast
+            v = a.value if isinstance(a, (ast.Assign, ast.AnnAssign)) and getattr(a, "value", None) is not None else None
+            if v is None:
+                out.append((d, e))
+            else:
+                out += leaves(d, v, depth - 1)
+        return out or [(nd, e)]
+
+    def _len_of(v):
+        return v.args[0].id if isinstance(v, ast.Call) and call_name(v) == "len" and len(v.args) == 1 and isinstance(v.args[0], ast.Name) else None
+
+    contribs = augs + asgs
+    len_defs = {}  # list name as written -> [(def node, contribution node)]
+    for a in contribs:
+        is_aug = isinstance(a.ast, ast.AugAssign)
+        lvs = leaves(a, a.ast.value)
+        removed = {nm for nd, nm in rm_sites if nd.loops[: len(a.loops)] == a.loops}
+        okp = (not is_aug) or isinstance(a.ast.op, ast.Add)
+        bad = None
+        for d, v in lvs:
+            ln = _len_of(v)
+            if ln is not None:
+                if ln in removed:
+                    len_defs.setdefault(ln, []).append((d, a))
+                else:
+                    bad = v
+            elif not (isinstance(v, ast.Constant) and v.value == 0 and not isinstance(v.value, bool)):
+                bad = v
+        shown = next((norm(v) for _d, v in lvs if _len_of(v)), norm(a.ast.value))
+        ck.require(bool(okp and bad is None), "C06.count", gc, a,
+                   f"counter grows by {shown} of the very list handed to removal",
+                   f"counter update `{a.text()}` is not len() of the list that is removed ({', '.join(sorted(removed)) or 'none'}): contributes `{norm(bad) if bad is not None else a.text()}`")
+    # overwrite: a plain assignment never follows another contribution
+    for a in asgs:
+        prior = [c_ for c_ in contribs if c_.id != a.id and reaches(g, c_.id, a.id, ignore_exc=True)]
+        ck.require(not prior, "C06.count", gc, a, "the counter is (re)set only before anything was counted",
+                   f"`{a.text()}` overwrites what `{prior[0].text() if prior else ''}` has counted", construct=f"{a.text()} / overwrite")
+    # completeness, per removal site
+    ck.floor("C06.count", len(rm_sites), 1, "removals of whole lists in gc")
+    for nd, nm in rm_sites:
+        pairs = len_defs.get(nm, [])
+        loop = None
+        for hid in reversed(nd.loops):
+            if any(hid in a.loops for _d, a in pairs):
+                loop = hid
+                break
+        if loop is not None:
+            starts, target = [d for lab, d in g.nodes[loop].succ if lab == "T"], loop
+        else:
+            starts, target = [g.entry], g.exit
+
+        def skip(a_, lab, b_, nm=nm):
+            if lab == "exc":
+                return True
+            t = norm(a_.ast) if a_.kind == "test" and a_.ast is not None else None
+            return (t == nm and lab == "F") or (t == f"not {nm}" and lab == "T")
+
+        dn = {d.id for d, _a in pairs}
+        an = {a.id for _d, a in pairs}
+        r1 = g.reach(starts, skip_node=lambda x: x.id in dn, skip_edge=skip)
+        miss = target in r1
+        if not miss:
+            for d, a in pairs:
+                if d.id == a.id:
+                    continue
+                r2 = g.reach([x for _l, x in d.succ if _l != "exc"], skip_node=lambda x: x.id in an, skip_edge=skip)
+                if target in r2:
+                    miss = True
+        ck.require(bool(pairs) and not miss, "C06.count", gc, nd,
+                   f"whenever `{nm}` is handed to removal (or would be, in a dry run) its length has been added to the count",
+                   f"the count can miss len({nm}): a path reaches {'the next iteration' if loop is not None else 'the return'} without adding it (the count must not depend on `dry` or on anything but the list being empty)",
+                   construct=f"{nd.text()[:50]} / counted")
+    for a in augs:
         # independent of dry: reachable with dry true and with dry false
         for pol, lab_cut in (("true", "F"), ("false", "T")):
             def cutedge(t, lab, lab_cut=lab_cut):
@@ -468,3 +584,16 @@ def _check_count(ck: Checker, gc: Func, g, destr) -> None:
                        f"count is accumulated when dry is {pol}",
                        f"count is not accumulated when dry is {pol}",
                        construct=f"{a.text()} / dry={pol}")
+
+
+def _coll_of(g, nd, name: str):
+    """`for name in COLL:` around nd, COLL a plain name -> COLL"""
+    for hid in nd.loops:
+        h_ = g.nodes[hid]
+        if h_.kind == "for" and isinstance(h_.ast.target, ast.Name) and h_.ast.target.id == name:
+            it = h_.ast.iter
+            if isinstance(it, ast.Call) and isinstance(it.func, ast.Name) and it.func.id == "filter" and len(it.args) == 2 and isinstance(it.args[0], ast.Constant) and it.args[0].value is None:
+                it = it.args[1]  # filter(None, COLL): the non-empty members of COLL
+            if isinstance(it, ast.Name):
+                return it.id
+    return None
